@@ -26,9 +26,11 @@ CLAIMED = {
              "partition of every subscribed topic exactly once to a subscribed member, and with identical "
              "subscriptions the k-th partition goes to member k mod m so loads are within one. Both models are tied to "
              "/repo by byte-identical differential comparison on a slice (quick) or all (thorough) of the property's "
-             "exhaustive space plus random inputs. PARTIAL for the sticky assignor: it is not modelled; the Lean "
-             "executable statement (cover, nothing-else, KIP-54 balance; soundness lemmas proved) is evaluated on "
-             "the library's output for every explored input.",
+             "exhaustive space plus random inputs. PARTIAL for the sticky assignor: StickyAssignmentExecutor is ported to "
+             "Lean (Model/StickyAlg.lean, ~350 lines, single-generation user data) and tied by byte-identical T-diff, but "
+             "validity/balance of the port are not proved for all inputs; the Lean executable statement (cover, "
+             "nothing-else, KIP-54 balance; soundness lemmas proved) is evaluated on every explored output, and "
+             "non-termination / exceptions are findings.",
         design="3/C14",
         note="trusted: Lean kernel (+propext, Classical.choice, Quot.sound); T-diff harness, stub ClusterMetadata, "
              "zero-padded names; sticky assignor validity/balance only validated per explored input, not proved.",
@@ -69,8 +71,9 @@ CLAIMED = {
     ),
     "C15": dict(
         category="other",
-        text="PARTIAL. The sticky assignor's algorithm is not (yet) modelled in Lean, so no theorem quantifies over all "
-             "inputs. What is machine-checked: the three stickiness clauses as Lean functions over two consecutive "
+        text="PARTIAL. The sticky assignor is ported to Lean (Model/StickyAlg.lean) and every explored round is compared "
+             "byte for byte with the real assignor, but no theorem about the port's stickiness over all inputs is proved. "
+             "What is machine-checked: the three stickiness clauses as Lean functions over two consecutive "
              "assignments with soundness lemmas (a true verdict means: owners unchanged / a survivor's partition stays with "
              "it / a partition owned by an old member was already its own), and the round trip of the real user-data "
              "struct (instance of C11's generic theorem over the regenerated schema). The check evaluates those Lean "
